@@ -5,6 +5,7 @@ import (
 	"fmt"
 	"net/url"
 	"sort"
+	"strings"
 	"time"
 
 	apierrors "k8s.io/apimachinery/pkg/api/errors"
@@ -44,6 +45,21 @@ func RunC18(r *sim.Run) {
 		w.StartReplica(i)
 	}
 	w.TrackLeadership()
+	// identities: the operator chooses the prefix (--client-id-prefix); with the
+	// in-memory store nothing restricts it
+	idStyle := "plain"
+	if storeKind == "local" {
+		idStyle = []string{"plain", "plain", "plain", "host:port", "long"}[t.Draw(5)]
+	}
+	w.IDPrefix = func(name string) string {
+		switch idStyle {
+		case "host:port":
+			return "10.0.0." + strings.TrimPrefix(name, "gw") + ":6443"
+		case "long":
+			return name + "." + strings.Repeat("gateway-pool-a.", 4) // > 63 characters with pid and suffix
+		}
+		return name
+	}
 	const up = "up-a"
 	Lmif, Lcnt := int32(100), int32(20)
 	o := clusterObj(up, []*schemaCfg{{name: "mif", limit: Lmif}, {name: "cnt", limit: Lcnt}})
@@ -340,5 +356,5 @@ func RunC18(r *sim.Run) {
 	r.ProbeN("dead_instance_checks", reclaimedChecked)
 	r.ProbeN("live_instance_checks", liveChecked)
 	r.Nontrivial = reclaimedChecked > 0 && liveChecked > 0
-	r.Sample = map[string]interface{}{"replicas": nRep, "store": storeKind, "store_period": period.String(), "instances": len(insts), "dead_checks": reclaimedChecked, "live_checks": liveChecked}
+	r.Sample = map[string]interface{}{"replicas": nRep, "store": storeKind, "store_period": period.String(), "identities": idStyle, "instances": len(insts), "dead_checks": reclaimedChecked, "live_checks": liveChecked}
 }
